@@ -886,7 +886,7 @@ func init() {
 			if t == "thorough" {
 				return 10 * time.Minute
 			}
-			return 2 * time.Minute
+			return 6 * time.Minute
 		},
 		Run: func(c *core.Case) *core.Result {
 			sc := stressCfg{COW: c.R.Chance(1, 2), Readers: 1 + c.R.Intn(4), Writers: 1, TxPerWriter: 20 + c.R.Intn(25), Perturb: true, HoldMax: []int{0, 5, 50, 400}[c.R.Intn(4)], Faults: c.R.Chance(1, 3)}
@@ -920,7 +920,7 @@ func init() {
 			if t == "thorough" {
 				return 10 * time.Minute
 			}
-			return 2 * time.Minute
+			return 6 * time.Minute
 		},
 		Run: func(c *core.Case) *core.Result {
 			if c.Idx%4 == 3 {
